@@ -421,7 +421,7 @@ fn proof_model_lines(em: &mut Emitter, rng: &mut Rng) {
 }
 
 /// deviations inside an accepted presentation: every leaf of the revocation proof, and the link to the signature proof
-fn proof_deviations<S: ShortGroupSignatureScheme>(em: &mut Emitter, rng: &mut Rng, suite: &str) {
+fn proof_deviations<S: ShortGroupSignatureScheme + 'static>(em: &mut Emitter, rng: &mut Rng, suite: &str) {
     let n_claims = 4;
     let schema = cred_schema(n_claims, &[]);
     let (public, mut issuer) = Issuer::<S>::new(&schema);
@@ -454,6 +454,110 @@ fn proof_deviations<S: ShortGroupSignatureScheme>(em: &mut Emitter, rng: &mut Rn
                 }
                 if call(|| g.verify(&sch, &nonce)).is_ok() {
                     em.violation("c06:revoked-presents:grafted-proof", format!("{}: a revoked holder's presentation with another holder's revocation proof grafted in is accepted", suite), json!({"suite": suite, "presentation": va}));
+                }
+            }
+        }
+        // degenerate revocation proofs in the revoked holder's own presentation: points at infinity and zero responses
+        // (only s_y, which the verifier compares with the signature proof's response, is kept)
+        {
+            let mut ls = vec![];
+            leaves(&va["proofs"]["rev"], &mut vec!["proofs".to_string(), "rev".to_string()], &mut ls);
+            let pts: Vec<Vec<String>> = ls.iter().filter(|(_, l)| l.as_str().map(|s| s.len() == 96).unwrap_or(false)).map(|(p, _)| p.clone()).collect();
+            let scs: Vec<Vec<String>> = ls.iter().filter(|(p, l)| l.as_str().map(|s| s.len() == 64).unwrap_or(false) && p.last().map(|x| x != "s_y").unwrap_or(true)).map(|(p, _)| p.clone()).collect();
+            let named = |names: &[&str]| -> Vec<Vec<String>> { pts.iter().filter(|p| names.contains(&p.last().unwrap().as_str())).cloned().collect() };
+            let variants: Vec<(&str, Vec<Vec<String>>, bool)> = vec![
+                ("all-points-at-infinity-zero-responses", pts.clone(), true),
+                ("all-points-at-infinity", pts.clone(), false),
+                ("e_c-t_sigma-t_rho-at-infinity-zero-responses", named(&["e_c", "t_sigma", "t_rho"]), true),
+                ("e_c-t_sigma-t_rho-at-infinity", named(&["e_c", "t_sigma", "t_rho"]), false),
+                ("e_c-at-infinity-zero-responses", named(&["e_c"]), true),
+            ];
+            for (name, points, zero) in variants {
+                let mut v = va.clone();
+                for p in &points {
+                    *get_mut(&mut v, p).unwrap() = json!(g1_hex_c(&G1Projective::IDENTITY));
+                }
+                if zero {
+                    for p in &scs {
+                        *get_mut(&mut v, p).unwrap() = json!(sc_hex(&Scalar::ZERO));
+                    }
+                }
+                for fix in [false, true] {
+                    em.oracle_case(&format!("{} degenerate-proof {} {}", suite, name, fix));
+                    if let Out::Ok(mut g) = pres_from_value::<S>(&v) {
+                        if fix {
+                            crate::adv::fix_challenge(&mut g, &sch, &nonce, 3);
+                        }
+                        if call(|| g.verify(&sch, &nonce)).is_ok() {
+                            em.violation("c06:revoked-presents:degenerate-proof", format!("{}: a revoked holder's presentation whose revocation proof is degenerate ({}) is accepted", suite, name), json!({"suite": suite, "variant": name, "presentation": v}));
+                        }
+                    } else {
+                        em.count("degenerate-proof:undecodable");
+                    }
+                }
+            }
+        }
+        // the same degenerate proof, answered properly: if what the verifier hashes for the revocation proof does not
+        // depend on the challenge, the holder learns those items in a dry run and lets the real signature prover answer
+        // the challenge over (public part, signature proof, learned items) — no handle needed
+        {
+            let sig_only: Vec<Statements<S>> = sch.statements.values().filter(|s| matches!(s, Statements::Signature(_))).cloned().collect();
+            let prover_schema = PresentationSchema::new_with_id(&sig_only, &sch.id);
+            let mut creds: IndexMap<String, PresentationCredential<S>> = IndexMap::new();
+            creds.insert("sig".to_string(), a.credential.clone().into());
+            let mut ls = vec![];
+            leaves(&vb["proofs"]["rev"], &mut vec![], &mut ls);
+            let slot = if suite == "bbs" { 0 } else { 2 };
+            let mk = |which: &str, sig_json: &Value| -> Value {
+                let mut deg = vb["proofs"]["rev"].clone();
+                for (p, l) in &ls {
+                    let len = l.as_str().map(|s| s.len()).unwrap_or(0);
+                    let name = p.last().map(|x| x.as_str()).unwrap_or("");
+                    if len == 96 && (which == "all" || ["e_c", "t_sigma", "t_rho"].contains(&name)) {
+                        *get_mut(&mut deg, p).unwrap() = json!(g1_hex_c(&G1Projective::IDENTITY));
+                    } else if len == 64 && name == "s_y" {
+                        *get_mut(&mut deg, p).unwrap() = sig_json["Signature"]["pok"]["proof"][slot].clone();
+                    } else if len == 64 {
+                        *get_mut(&mut deg, p).unwrap() = json!(sc_hex(&Scalar::ZERO));
+                    }
+                }
+                deg
+            };
+            for which in ["all", "three"] {
+                em.oracle_case(&format!("{} degenerate-proof-answered {}", suite, which));
+                let p0 = match crate::adv::steered_create(&creds, &prover_schema, &sch, &nonce, None) {
+                    Out::Ok(p) => p,
+                    _ => continue,
+                };
+                let mut v0 = serde_json::to_value(&p0).unwrap();
+                let sig0 = v0["proofs"]["sig"].clone();
+                v0["proofs"]["rev"] = mk(which, &sig0);
+                let q0 = match pres_from_value::<S>(&v0) {
+                    Out::Ok(q) => q,
+                    _ => continue,
+                };
+                let (_, _, log) = verify_logged(&q0, &sch, &nonce);
+                let items = crate::adv::main_items(&log);
+                // everything after (public part of the verifier's schema, what the signature proof contributes)
+                let (_, _, log0) = verify_logged(&p0, &prover_schema, &nonce);
+                let n_sig = crate::adv::main_items(&log0).len().saturating_sub(crate::adv::public_prefix(&prover_schema, &nonce).len());
+                let tail_start = crate::adv::public_prefix(&sch, &nonce).len() + n_sig;
+                if n_sig == 0 || tail_start >= items.len() {
+                    em.count("degenerate-proof-answered:no-items-learned");
+                    continue;
+                }
+                let extra: Vec<(Vec<u8>, Vec<u8>)> = items[tail_start..].to_vec();
+                if let Out::Ok(p1) = crate::adv::steered_create_ext(&creds, &prover_schema, &sch, &nonce, None, extra) {
+                    let mut v1 = serde_json::to_value(&p1).unwrap();
+                    let sig1 = v1["proofs"]["sig"].clone();
+                    v1["proofs"]["rev"] = mk(which, &sig1);
+                    if let Out::Ok(q1) = pres_from_value::<S>(&v1) {
+                        let acc = call(|| q1.verify(&sch, &nonce)).is_ok();
+                        em.count(&format!("degenerate-proof-answered:{}:{}", which, if acc { "accepted" } else { "rejected" }));
+                        if acc {
+                            em.violation("c06:revoked-presents:degenerate-proof", format!("{}: a revoked holder without any handle presents with a revocation proof made of points at infinity ({}) answered under a challenge computed in advance", suite, which), json!({"suite": suite, "variant": which, "presentation": v1}));
+                        }
+                    }
                 }
             }
         }
